@@ -160,6 +160,13 @@ def gen_orbit_call(rng, spec, listeners_n=0, p_listen=0.35):
         call["dates"] = ds
         if rng.random() < 0.15:
             call["dates_as_gen"] = True
+        import random
+
+        r4 = random.Random("dup:" + repr(ds))
+        if ds and r4.random() < 0.25:
+            # the same date twice in a row (two chained ranges both holding the date where they meet, a there-and-back list)
+            j_ = r4.randrange(len(ds))
+            ds.insert(j_, ds[j_])
         if k == "keplernum":
             # the numerical propagator documents a date range here
             s = ds[0] if ds else 0
